@@ -583,6 +583,27 @@ def _(E, p):
     return out
 
 
+@entry("transform_params", 1.0)
+def _(E, p):
+    """Helpers that derive a transform parameter from the caller's array, and transforms that remember a scale from it."""
+    from grid import rtransform as rt
+
+    x = E.arr("x", np.sort(_rs(140).uniform(-1, 1, 9 + p % 2)))
+    out = [rt.BeckeRTransform.find_parameter(x, 0.1, 1.2 + 0.1 * (p % 3))]
+    n = E.arr("n", np.arange(0.0, 12.0))
+    for cls in (rt.LinearInfiniteRTransform, rt.ExpRTransform, rt.PowerRTransform):
+        tf = cls(0.01, 20.0)
+        if p % 2:
+            tf.set_maximum_parameter_b(n)
+            out.append(tf.b)
+        r = tf.transform(n)
+        out += [r, tf.deriv(n), tf.inverse(E.arr("r_" + cls.__name__, r)), tf.b, tf.domain, tf.codomain]
+    inv = rt.InverseRTransform(rt.BeckeRTransform(0.1, 1.5))
+    rr = E.arr("rr", np.linspace(0.2, 9.0, 8))
+    out += [inv.transform(rr), inv.deriv(rr), inv.deriv2(rr), inv.deriv3(rr), inv.inverse(E.arr("xx", np.linspace(-0.8, 0.8, 5)))]
+    return out
+
+
 @entry("edge_inputs", 3.0)
 def _(E, p):
     """Caller data that sits on the edge of what the library accepts or special-cases: points a rounding error outside
